@@ -1,2 +1,13 @@
 import LdkModel.Props.C18
 #print axioms Ldk.C18.bech32_single_symbol_detected
+#print axioms Ldk.C18.amount_hrp_roundtrip
+#print axioms Ldk.C18.bolt11_data_roundtrip
+#print axioms Ldk.C18.fes_bytes_roundtrip
+#print axioms Ldk.C18.bolt11_sig_covers
+#print axioms Ldk.C18.parseTagged_eq_split_interp
+#print axioms Ldk.C18.merkle_binding
+#print axioms Ldk.C18.merkle_binding_ideal
+#print axioms Ldk.C18.merkle_binding_hypothesis_satisfiable
+#print axioms Ldk.C18.metadata_verify_iff
+#print axioms Ldk.C18.metadata_verify_keys_iff
+#print axioms Ldk.C18.payer_metadata_verify_iff
